@@ -74,6 +74,10 @@ def handle(ctx, viols, tracefile):
                 raise V.Machinery("trace line %d of %s: %s" % (lineno, tracefile, rule))
             if rule.startswith(ctx.id + "_"):
                 todo.append((lineno, rule))
+            else:
+                rec = V.read_line(tracefile, lineno)
+                ctx.say("line %d of %s breaks %s (a rule of another property, reported by that property's check): %s" % (
+                    lineno, os.path.basename(tracefile), rule, json.dumps({"q": rec["q"], "out": rec["out"], "note": (rec.get("conc") or {}).get("note")})[:900]))
     # first one observation per (rule, cause), then the rest (lib/vcheck keeps three replay files per rule)
     seen, first, rest = set(), [], []
     for lineno, rule in todo:
